@@ -84,7 +84,7 @@ func (ch *ConnectionHandler) acceptStream() {
 			streams.TryClose(ch.session)
 			return
 		}
-		stream = streams.NewNamedConnection(stream, stream.RemoteAddr().String())
+		stream = streams.NewNamedConnection(streams.NewMuxStream(stream), stream.RemoteAddr().String())
 		log.Debugf("[Server] New logical connection accepted: %v", stream)
 
 		// Serve the logical connection on its own goroutine: the loop must get back to accepting the next one
